@@ -9,7 +9,7 @@ import z3
 
 from . import ops
 from .ops import Arith, truth, b_and, b_or, b_not, equal, merge, ite
-from .values import (EngineError, NONE, ListV, SeqV, OptV, ObjV, MapV, SetV, RangeV, ExcV, StrV, LitSet, EnumV, ImgSetV,
+from .values import (EngineError, NONE, ListV, SeqV, OptV, ObjV, MapV, SetV, RangeV, ExcV, StrV, LitSet, EnumV, ImgSetV, MapViewV,
                      TInt, TBool, TReal, TBV, TTuple, TList, TSeq, TOpt, TRec, TMap, TSet, TNone, TConst,
                      is_z3, is_scalar, is_bv, is_real, to_int_term, to_bool_term, to_real_term, fresh, fresh_name,
                      shape_of, value_facts, key_term, key_sort, shape_leaves, flatten_value, build_from_leaves,
@@ -1204,7 +1204,33 @@ class Engine(object):
     def ev_SetComp(self, node, st):
         return self.comprehension(node, st, "set")
 
+    def key_value(self, kshape, kq):
+        """the python-level key value of a key term (scalar keys only)"""
+        from .values import TInt as _TI, TBool as _TB
+        if isinstance(kshape, (_TI, _TB, TBV)):
+            return kq
+        raise EngineError("iteration over a map with structured keys")
+
     def ev_DictComp(self, node, st):
+        # {k: f(k, v) for k, v in iteritems(m)} over a symbolic map: same keys, pointwise values
+        if len(node.generators) == 1 and not node.generators[0].ifs:
+            g = node.generators[0]
+            r = self.ev(g.iter, st)
+            if len(r) == 1 and isinstance(r[0][1], MapViewV) and r[0][1].what == "items":
+                mv, s1 = r[0][1], r[0][0]
+                kq = z3.Const(fresh_name("k"), mv.m.dom.sort().domain())
+                val, facts = self.map_get(mv.m, kq)
+                kval = self.key_value(mv.m.key, kq)
+                s_in = self.assign(g.target, (kval, val), s1.assume(*facts))
+                rk = self.ev(node.key, s_in)
+                rv = self.ev(node.value, s_in)
+                if (len(rk) == 1 and len(rv) == 1 and not isinstance(rk[0][1], Raised) and not isinstance(rv[0][1], Raised)
+                        and is_z3(rk[0][1]) and rk[0][1].eq(kq) and is_scalar(rv[0][1])):
+                    newv = rv[0][1]
+                    arr = z3.Array(fresh_name("dcomp"), kq.sort(), to_int_term(newv).sort() if not is_real(newv) else z3.RealSort())
+                    ops.define(arr.decl().name(), z3.ForAll([kq], z3.Select(arr, kq) == (to_int_term(newv) if not is_real(newv) else newv), patterns=[z3.Select(arr, kq)]))
+                    return [(s1, MapV(mv.m.key, TInt(), mv.m.dom, [arr]))]
+                raise EngineError("dict comprehension over a symbolic map: only {k: f(k, v) for k, v in items} with scalar values (line %d)" % node.lineno)
         return self.comprehension(node, st, "dict")
 
     def comprehension(self, node, st, kind):
@@ -1398,6 +1424,22 @@ class Engine(object):
                 and node.func.id not in st.env):
             g = node.args[0].generators[0]
             r = self.ev(g.iter, st)
+            if len(r) == 1 and isinstance(r[0][1], MapViewV):
+                mv, s1 = r[0][1], r[0][0]
+                kq = z3.Const(fresh_name("k"), mv.m.dom.sort().domain())
+                val, facts = self.map_get(mv.m, kq)
+                kval = self.key_value(mv.m.key, kq)
+                el = {"items": (kval, val), "values": val, "keys": kval}[mv.what]
+                s_in = self.assign(g.target, el, s1.assume(z3.Select(mv.m.dom, kq), *facts))
+                n_obl = len(self.obligations)
+                rb = self.ev(node.args[0].elt, s_in)
+                if len(rb) == 1 and not isinstance(rb[0][1], Raised) and len(self.obligations) == n_obl and not g.ifs:
+                    body = ops._tb(truth(rb[0][1]))
+                    rng = z3.And(z3.Select(mv.m.dom, kq), *facts)
+                    val_ = z3.Exists([kq], z3.And(rng, body)) if node.func.id == "any" else z3.ForAll([kq], z3.Implies(rng, body))
+                    return [(s1, val_)]
+                del self.obligations[n_obl:]
+                raise EngineError("any/all over a symbolic map with a body that forks or may raise (line %d)" % node.lineno)
             if len(r) == 1 and isinstance(r[0][1], SeqV) and self.static_items(r[0][1]) is None:
                 sq, s1 = r[0][1], r[0][0]
                 # quantify over the ABSOLUTE array index (slices share their parent's arrays), so that
@@ -2339,7 +2381,7 @@ class Engine(object):
         for v in sorted(mod_names):
             if v in h.env and not isinstance(h.env[v], (FuncV, PyObj, ClassRef, ModuleInfo)):
                 try:
-                    nv, f = fresh(shape_of(h.env[v]), v)
+                    nv, f = fresh(var_shapes[v] if v in var_shapes and not isinstance(var_shapes[v], TSeq) else shape_of(h.env[v]), v)
                 except EngineError:
                     continue
                 h.env[v] = nv
